@@ -2,7 +2,8 @@
 HIST_NOTE = ("Trusted: the shadow model / slab upstream in /verif (targets/hist_run.cpp, vf/slab.hpp), "
              "clang 14 ASan+UBSan, rapidcheck. Histories are bounded (<=200 ops quick, <=200 ops x more cases "
              "thorough), sizes <=64 KiB, subjects are a catalogue of 68 allocator x block-source instantiations in "
-             "3 build configurations. Absence of a violation is not a proof.")
+             "3 build configurations; upstream blocks are placed by five generated layouts (ascending, descending, "
+             "adjacent, reuse, windows 3 GiB apart). Absence of a violation is not a proof.")
 
 
 def hist(level, ref, technique):
@@ -17,7 +18,8 @@ TEXT = {
                 "and read back inside guarded upstream blocks; position classes are measured.",
                 "DESIGN.md 5/C02", "stateful PBT + fuzzing; alignment/usable-range oracle over generated requests"),
     "C03": hist("Oversize requests, exhaustion histories and injected upstream faults; exception family, handler "
-                "call, null returns, try_ functions never growing, and continued service are checked.",
+                "call, null returns, try_ functions never growing, continued service, unchanged upstream request "
+                "on a retry after an injected failure, and no invalid-pointer report on later valid releases are checked.",
                 "DESIGN.md 5/C03", "stateful PBT + fault injection at generated upstream call positions"),
     "C04": hist("Capacity conservation over fully released segments, allocate/release cycles, premature growth, "
                 "and (guarded hook) structural free-list walks after every operation.",
@@ -32,10 +34,12 @@ TEXT = {
                 "on switch, for block sizes incl. size mod N != 0.",
                 "DESIGN.md 5/C07", "stateful PBT; lifetime model + capacity invariants"),
     "C12": hist("Moves, move assignments (onto fresh and used targets), swaps and destruction/assignment of "
-                "moved-from objects inserted at generated positions of a history; model and upstream balance continue.",
+                "moved-from objects inserted at generated positions of a history; model and upstream balance continue; "
+                "no invalid-pointer report through the new owner, no leak report from a moved-from object.",
                 "DESIGN.md 5/C12", "stateful PBT with move operations; shadow model + upstream balance"),
     "C15": hist("Traits-level histories with moves; the recording leak handler must fire exactly once with the "
-                "exact net at destruction, never otherwise.",
+                "exact net at destruction, never otherwise; forked children run histories on one or two low-level "
+                "allocators (a third of them on 3-4 threads) and their exit reports are compared with the nets.",
                 "DESIGN.md 5/C15", "stateful PBT; handler-capture oracle against a net-bytes model"),
     "C18": hist("Counter deltas per operation against the model, attainability/tightness probes of "
                 "capacity_left(), requests above the reported maxima.",
@@ -50,8 +54,10 @@ TEXT.update({
                       "served the allocation with the same shape, across default-full/default-empty phases.",
                 technique="stateful PBT; ownership oracle from the shadow model + logging-leaf call-log oracle"),
     "C09": dict(engine="comp", ref="DESIGN.md 5/C09",
-                note="Trusted: logging leaves / slab in /verif. Compositions are a compile-time catalogue of 20 "
-                     "(depth <= 3) plus typed helpers over a 9-type catalogue, not all C++ programs; instantiation "
+                note="Trusted: logging leaves / slab in /verif. Compositions are a compile-time catalogue of 24 "
+                     "(depth <= 3; leaves with the full interface, node-only, node-only composable, moving maxima) plus "
+                     "typed helpers over a 9-type catalogue (also with a throwing element type and over a node-only "
+                     "leaf), not all C++ programs; instantiation "
                      "probes cover member instantiability.",
                 level="Adapter compositions over logging leaves: each user request reaches a leaf as exactly one "
                       "request (>= bytes, >= alignment), each release exactly once to the same leaf with identical "
@@ -82,7 +88,9 @@ TEXT.update({
 TEXT.update({
     "C10": dict(engine="cont", ref="DESIGN.md 5/C10",
                 note="Trusted: logging leaves / slab in /verif; libstdc++ only. 12 container kinds x {typed, type-erased} "
-                     "std_allocator, int / pair<const int,int> / char elements for the op sequences; element types "
+                     "std_allocator, int / pair<const int,int> / char elements for the op sequences, plus vector/deque/list "
+                     "with 12/20/24-byte elements over a node-only allocator and vector/list/map/deque over a copyable "
+                     "allocator handle declared is_shared_allocator; element types "
                      "Elem<S,A> (S 1..128, A 1..16) for the generated node-size sweep.",
                 level="Generated container op sequences (insert/erase/copy/move/assign/swap/splice across two allocator "
                       "objects) against a differential std::allocator reference; every release is validated by the "
@@ -101,7 +109,8 @@ TEXT.update({
                 technique="stateful PBT; layout validity predicate + upstream call-log oracle"),
     "C13": dict(engine="thr", ref="DESIGN.md 5/C13",
                 note="Trusted: the instrumented mutex and allocator shell in targets/thr.cpp. The deterministic oracle "
-                     "decides the mechanism for 4 storage policies and every forwarding member; free-running stress "
+                     "decides the mechanism for 4 storage policies, a stateful shell with data and an empty class that "
+                     "declares itself stateful (alone and under tracked_allocator) and every forwarding member; free-running stress "
                      "samples schedules (no scheduler control inside std::mutex).",
                 level="Instrumented mutex + allocator shell: at every entry into the wrapped allocator the storage's own "
                       "mutex must be held by the calling thread and released afterwards, for all forwarding members and "
@@ -119,7 +128,7 @@ TEXT.update({
                       "the schedule also chooses the interleaving inside create/adopt/clear/thread-exit of the stack list.",
                 technique="stateful PBT over thread schedules (harness-owned scheduler) + fork-per-case exit observation"),
     "C20": dict(engine="obj", ref="DESIGN.md 5/C20",
-                note="Trusted: the ledger element type and logging leaf in targets/obj.cpp.",
+                note="Trusted: the ledger element types and logging leaves (full interface and node-only) in targets/obj.cpp.",
                 level="For each helper / joint_array constructor form and every length 0..16 the number of element "
                       "creations is measured (allocate_unique / allocate_shared with converting, default, copy and move "
                       "construction, for an element type whose constructors all may throw and for one with a noexcept "
